@@ -4,7 +4,12 @@
 PROP=$1; N=${2:-200}
 HERE=$(cd "$(dirname "$0")/.." && pwd)
 BIN=$HERE/bin/verifsim.det.$$
-cd $HERE && ./build.sh $BIN || exit 2
+# build against a private clone of /repo's HEAD: patches being tried in /repo's working tree must not leak in
+SNAP=$(mktemp -d /dev/shm/repo-snap.XXXXXX)
+git clone -q /repo $SNAP || exit 2
+cd $HERE && VERIF_REPO=$SNAP ./build.sh $BIN; brc=$?
+rm -rf $SNAP
+[ $brc -eq 0 ] || exit 2
 D=$(mktemp -d /dev/shm/dettest.XXXX)
 i=0
 for gmp in 1 4 16 4; do
